@@ -202,6 +202,12 @@ def check_permutations(case):
     twin, _ = _evolve(case, ("ol", "en"), parA)
     for w in ("ol", "en"):
         _same(twin[w], sepA[w], f"{w}: identically built and driven twins")
+    # two identically built minerals handed to the same bulk update: both are updated at every
+    # step (distinct objects, however equal they compare) and stay bit-identical twins
+    trio, _ = _evolve(dict(case, ol2=case["ol"]), ("ol", "en", "ol2"), parA, bulk_order=("ol", "en", "ol2"), F_inputs=bulk1["_chain"])
+    _same(trio["ol2"], trio["ol"], "ol: identically built twin handed to the same update_all call")
+    for w in ("ol", "en"):
+        _same(trio[w], bulk1[w], f"{w}: update_all with an additional twin mineral in the list")
     if case.get("restore", "none") != "none":
         plain, _ = _evolve(dict(case, restore="none"), ("ol", "en"), parA)
         for w in ("ol", "en"):
